@@ -887,3 +887,78 @@ def r6(cx):
                                  'an entry only for the contexts defining the name, so the wrong entries are selected (a local variable is not '
                                  'unset) or the index is out of range (panic)', loc=b.loc(st))
     cx.floor(n_src, 2, 'context-number computations in yash_env::variable')
+
+
+# ---------------------------------------------------------------- added after wave-2 seeded changes
+GLOBAL_ASSIGNERS = {
+    # function that assigns a shell variable on behalf of the user -> why the target is the visible variable, else a new global
+    'yash_semantics::expansion::initial::param::switch::assign': '${x=w} / ${x:=w} assign the shell variable, not a local of the running function',
+    "<yash_semantics::expansion::initial::arith::VarEnv<'_, S> as yash_arith::env::Env>::assign_variable": '$((x=1)) assigns the shell variable',
+    'yash_semantics::command::compound_command::for_loop::execute': 'the for loop variable is an ordinary shell variable',
+    'yash_builtin::read::assigning::assign_one': 'read assigns shell variables',
+    'yash_builtin::getopts::report::<impl yash_builtin::getopts::model::Result>::report': 'getopts sets its variable, OPTARG and OPTIND as shell variables',
+    'yash_builtin::cd::assign::set_variable': 'cd sets PWD / OLDPWD as shell variables',
+}
+
+
+@RS.rule('C16.R7', 'K-TABLE', 'expansions and built-ins that assign a variable on behalf of the user (${x=w}, $((x=..)), for, read, getopts, cd) '
+         'target the visible variable or else a new GLOBAL one: none of them creates a local of the running function')
+def r7(cx):
+    F = cx.F
+    seen = {}
+    for b, blk, t in F.callers_of(lambda names, t: any(n.endswith('::get_or_create_variable') or n.endswith('VariableSet::get_or_new') for n in names)):
+        if b.root not in GLOBAL_ASSIGNERS:
+            continue
+        du = Q.DefUse(b)
+        o = du.origin(t['a'][2]) if len(t['a']) > 2 else {'k': '?'}
+        variant = o['rv'].get('variant') if o['k'] == 'agg' and 'Scope' in (o['rv'].get('adt') or '') else None
+        if variant is None and o['k'] == 'const':
+            variant = str(o['o'].get('c'))
+        seen.setdefault(b.root, []).append((variant, b.loc(t)))
+        cx.fn(b.fn)
+        cx.site('%s: %s(.., Scope::%s) at %s - %s' % (b.root, pp.callee(t).split('::')[-1], variant, b.loc(t), GLOBAL_ASSIGNERS[b.root]))
+        if variant is None or not str(variant).endswith('Global'):
+            cx.violation(b.root, 'scope:%s' % (variant or 'computed'), 'the variable is obtained with Scope::%s instead of Scope::Global: inside a '
+                         'function the assignment creates (or hits) a local, so the global is left unset after the function returns, and '
+                         'an empty read-only global is silently shadowed instead of raising the read-only error (%s)'
+                         % (variant or '<computed>', GLOBAL_ASSIGNERS[b.root]), loc=b.loc(t))
+    for fn in GLOBAL_ASSIGNERS:
+        if fn not in seen:
+            cx.require(False, 'reviewed assigner %s no longer calls get_or_create_variable itself (moved? review where the value goes)' % fn)
+
+
+@RS.rule('C16.R8', 'K-GUARD', 'declaring / assigning in a scope never takes over a variable from below that scope: get_or_new pops a volatile '
+         'entry, or reuses an entry in place, only when its context is not below the target context')
+def r8(cx):
+    F = cx.F
+    fn = 'yash_env::variable::VariableSet::get_or_new_impl'
+    body = F.inlined(F.body(fn))
+    cx.fn(body.fn)
+    du = Q.DefUse(body)
+    pops = Q.find_calls(body, ['alloc::vec::Vec::<T, A>::pop', 'alloc::vec::Vec::<T, A>::remove', 'alloc::vec::Vec::<T, A>::swap_remove',
+                               'alloc::vec::Vec::<T, A>::truncate'])
+    cx.require(pops, 'get_or_new_impl no longer removes volatile entries from the per-name stack (anchor moved)')
+
+    def bounded(blk):
+        for org, lab, e in Q.implied_conditions(F, body, du, blk):
+            if org['k'] != 'binop' or lab[0] != 'bool':
+                continue
+            op = org['rv']['op']
+            a, b = [str(Q.operand_name(body, du, org['rv'][x]) or '') for x in ('a', 'b')]
+            if 'context_index' not in a or 'context_index' not in b or a == b:
+                continue
+            entry_first = a.startswith('var') or '.' in a
+            # entry.context_index >= target
+            if (entry_first and ((op == 'Lt' and lab[1] is False) or (op == 'Ge' and lab[1] is True))) or \
+               (not entry_first and ((op == 'Gt' and lab[1] is False) or (op == 'Le' and lab[1] is True))):
+                return True
+        return False
+
+    for blk, t in pops:
+        ok = bounded(blk)
+        cx.site('%s: %s at %s under `entry.context_index >= target context`: %s' % (body.fn, pp.callee(t).split('::')[-1], body.loc(t), ok))
+        if not ok:
+            cx.violation(fn, 'takes-over-lower-entry', 'an entry of the per-name stack is removed without the test that its context is not '
+                         'below the target context: a temporary assignment prefixed to an outer function call (`x=outer foo`) is pulled '
+                         'into a nested function that declares `local x` and destroyed at its return - the still running outer function '
+                         'then sees x unset', loc=body.loc(t))
